@@ -37,6 +37,15 @@ pub struct EngineSc {
     pub tool_posts: u8,
     pub plan: crate::esim::gates::Plan,
     pub workers: u8,
+    /// prompts answered by the scripted provider (session seq threaded through the provider pipe,
+    /// the tool runner and the request-observability frames)
+    #[serde(default)]
+    pub prompts: u8,
+    #[serde(default)]
+    pub script: Vec<crate::esim::Resp>,
+    /// RIP_OPENRESPONSES_DUMP_REQUEST=1: every provider request also logs a request-dump frame
+    #[serde(default)]
+    pub dump_requests: bool,
 }
 
 pub struct C01;
@@ -58,7 +67,16 @@ fn generate_engine(rng: &mut Rng) -> EngineSc {
     if rng.chance(1, 3) {
         rules.push(HoldRule { point: "session_emit:before_record".into(), nth: rng.below(10), release: Release::AfterMs(rng.range(5, 30)) });
     }
-    EngineSc { commands, tool_posts: rng.below(3) as u8, plan: Plan { rules, random: Some((rng.next_u64(), 1, rng.range(2, 5), rng.range(1, 10))) }, workers: if rng.chance(1, 2) { 3 } else { 0 } }
+    let prompts = rng.below(3) as u8;
+    let mut script = Vec::new();
+    let mut uniq = 0u64;
+    for i in 0..rng.range(1, 3) {
+        let r = crate::checks::c07::gen_resp(rng, &mut uniq, true, i);
+        script.push(r);
+    }
+    let last = crate::checks::c07::gen_resp(rng, &mut uniq, false, 9);
+    script.push(last);
+    EngineSc { commands, tool_posts: rng.below(3) as u8, plan: Plan { rules, random: Some((rng.next_u64(), 1, rng.range(2, 5), rng.range(1, 10))) }, workers: if rng.chance(1, 2) { 3 } else { 0 }, prompts, script, dump_requests: rng.chance(1, 2) }
 }
 
 fn execute_engine(e: &EngineSc, env: &Env) -> Executed {
@@ -67,8 +85,12 @@ fn execute_engine(e: &EngineSc, env: &Env) -> Executed {
     stats.bump("engine_scenarios", 1);
     let done = |outcome: Outcome, stats: RunStats| Executed { outcome, stats, schedules: Vec::new() };
     esim::WORKER_THREADS.store(e.workers as usize, std::sync::atomic::Ordering::SeqCst);
-    let engine = Engine::new(&env.root.join("e"), &ProviderCfg::default(), vec![], false);
+    let engine = Engine::new(&env.root.join("e"), &ProviderCfg::default(), e.script.clone(), e.prompts > 0);
     esim::WORKER_THREADS.store(0, std::sync::atomic::Ordering::SeqCst);
+    if e.dump_requests {
+        std::env::set_var("RIP_OPENRESPONSES_DUMP_REQUEST", "1");
+        stats.bump("request_dump_on", 1);
+    }
     let engine = match engine {
         Ok(x) => x,
         Err(err) => return done(Outcome::Harness(err), stats),
@@ -85,6 +107,13 @@ fn execute_engine(e: &EngineSc, env: &Env) -> Executed {
                 return Err(format!("create task: {st}"));
             }
             tasks.push(v["task_id"].as_str().unwrap_or("").to_string());
+        }
+        for k in 0..e.prompts {
+            let (st, v) = engine.call_json("POST", &format!("/threads/{tid}/messages"), Some(json!({"content": format!("question {k}")})))?;
+            if st != 202 {
+                return Err(format!("post: {st}"));
+            }
+            runs.push(v["session_id"].as_str().unwrap_or("").to_string());
         }
         for k in 0..e.tool_posts {
             let (st, v) = engine.call_json("POST", &format!("/threads/{tid}/messages"), Some(json!({"content": json!({"tool": "bash", "args": {"command": format!("echo p{k}; echo q{k} 1>&2")}}).to_string()})))?;
@@ -103,6 +132,7 @@ fn execute_engine(e: &EngineSc, env: &Env) -> Executed {
     })();
     gates::release_all();
     engine.settle(10);
+    std::env::remove_var("RIP_OPENRESPONSES_DUMP_REQUEST");
     let (_, holds) = gates::uninstall();
     for (k, v) in holds {
         stats.bump(&format!("fault:task_held_at:{k}"), v);
@@ -423,7 +453,7 @@ impl Check for C01 {
     fn assumptions(&self) -> Vec<String> {
         vec![
             "scheduling points are mutating fs effects, opens, shim-mutex operations; code between two points is atomic in the simulation".into(),
-            "1 in 60 scenarios is a whole-engine run (real router, session and task emitters with 2-3 concurrent producers per task stream, seeded holds at the emitter scheduling points, current-thread or 3-worker runtime, real time); the rest share the log with raw session frames only".into(),
+            "1 in 60 scenarios is a whole-engine run (real router, session and task emitters with 2-3 concurrent producers per task stream, prompts answered by a scripted provider incl. tool calls and faults, request dumping on or off, seeded holds at the emitter scheduling points, current-thread or 3-worker runtime, real time); the rest share the log with raw session frames only".into(),
             "restarts in this check are clean (no crash); crash states are C05".into(),
         ]
     }
